@@ -39,7 +39,7 @@ def run(ctx):
         data = b''
         # a byte order mark or other bytes that are not JSON at the very start are noise like any other, on standard input and in a file alike
         if rnd.random() < 0.15: data = rnd.choice([b'\xef\xbb\xbf', b'\xef\xbb\xbf\n', b'\xff\xfe', b'\xef\xbb', b'#!x\n']); noisy = True
-        for p in parts: data += p + rnd.choice([b'\n', b' ', b'\n\n', b'\t', b' \n '])
+        for p in parts: data += p + rnd.choice([b'\n', b' ', b'\n\n', b'\t', b' \n ', b'\r\n', b'\r', b'\t\t\n'])
         cfg = lib.new_cfg(select=['.a'] + rnd.sample(CTXSEL, rnd.randint(2, 6))) if rnd.random() < 0.7 else gen.pipeline_cfg(rnd)
         if rnd.random() < 0.2: cfg['only_objs'] = True
         # chunkings
